@@ -1,3 +1,7 @@
+\* CacheMap (X09).  Every run of harness/drivers/x09.py is this file with textual substitutions of
+\* Kinds (KAll / KMems / KDisks / KConcs / ... of MC_CacheMap.tla), Keys (K1 / K2 / K3), Slot (SlotColl: k1, k2 share a
+\* lock-table slot; SlotDist), Args (the get_set argument records), Ops (enabled calls), MaxOps (calls per history),
+\* MaxHandles (context managers held at once) and Variant ("ok", or one of the six broken designs TLC must reject).
 SPECIFICATION Spec
 CONSTANTS
   Kinds <- KMem
